@@ -492,7 +492,7 @@ vharness! {
 }
 
 vharness! {
-    /// @prop C03 @tier quick @mode full @funcs atomic::State::store @bounds ring of 3 live stores before the store, otherwise as atomic_store_lemma_t1, writer = thread 0
+    /// @prop C03 @tier thorough @mode full @funcs atomic::State::store @bounds ring of 3 live stores before the store, otherwise as atomic_store_lemma_t1, writer = thread 0
     /// store lemma for the initial thread.
     fn atomic_store_lemma_t0() { store_case(0, 3) }
 }
@@ -597,7 +597,7 @@ vharness! {
 }
 
 vharness! {
-    /// @prop C03,C02 @tier quick @mode full @funcs atomic::State::load,atomic::State::apply_load_coherence @bounds ring of 2 live stores, slot 0 read, reader = thread 0, otherwise as atomic_load_lemma_c3_i1_t2
+    /// @prop C03,C02 @tier thorough @mode full @funcs atomic::State::load,atomic::State::apply_load_coherence @bounds ring of 2 live stores, slot 0 read, reader = thread 0, otherwise as atomic_load_lemma_c3_i1_t2
     /// load lemma for the initial thread reading the older slot.
     fn atomic_load_lemma_c2_i0_t0() { load_case(0, 2, 0) }
 }
@@ -711,7 +711,7 @@ vharness! {
 }
 
 vharness! {
-    /// @prop C03 @tier quick @mode full @funcs atomic::State::rmw @bounds ring of 3 live stores, slot 0 read, thread 2, otherwise as atomic_rmw_lemma_c2_i1_t1
+    /// @prop C03 @tier thorough @mode full @funcs atomic::State::rmw @bounds ring of 3 live stores, slot 0 read, thread 2, otherwise as atomic_rmw_lemma_c2_i1_t1
     /// RMW lemma reading an old slot that is still modification-order-maximal (concurrent stores).
     fn atomic_rmw_lemma_c3_i0_t2() { rmw_case(2, 3, 0) }
 }
@@ -823,14 +823,14 @@ vharness! {
 }
 
 vharness! {
-    /// @prop C02,C03,C04 @tier quick @mode fast @cost 3 @timeout 3600 @funcs rt::fence,atomic::fence_acqrel,atomic::fence_acq,atomic::fence_rel @bounds as fence_acquire_exact_t1, fencing thread 2
+    /// @prop C02,C03,C04 @tier thorough @mode fast @cost 3 @timeout 3600 @funcs rt::fence,atomic::fence_acqrel,atomic::fence_acq,atomic::fence_rel @bounds as fence_acquire_exact_t1, fencing thread 2
     /// fence(AcqRel): the released view includes everything the acquire half picked up.
     #[cfg_attr(kani, kani::unwind(6))]
     fn fence_acqrel_exact_t2() { fence_case(2, 2) }
 }
 
 vharness! {
-    /// @prop C02,C03,C04 @tier quick @mode fast @cost 3 @timeout 3600 @funcs rt::fence,atomic::fence_seqcst,Set::seq_cst_fence @bounds as fence_acquire_exact_t1, fencing thread 1
+    /// @prop C02,C03,C04 @tier thorough @mode fast @cost 3 @timeout 3600 @funcs rt::fence,atomic::fence_seqcst,Set::seq_cst_fence @bounds as fence_acquire_exact_t1, fencing thread 1
     /// fence(SeqCst): acquire + release halves plus a two-way join with the global SC-fence view (total order of SC fences).
     #[cfg_attr(kani, kani::unwind(6))]
     fn fence_seqcst_exact_t1() { fence_case(3, 1) }
